@@ -20,6 +20,7 @@ DECIDED = [
     "C06.6 clone sources / flat nodes are never run, cleaned or rerun (first rows of the three decision tables)",
     "C06.10 cloning of multi-producer branches: one clone per producer built from its own clone source, dependants re-queued against that source, at any depth",
     "C06.7 get_dependency accepts a setup node only for the same object (identity or long suffix) and matching name/state",
+    "C06.7p/7t the parents of a test are looked up / parsed for exactly the declared state; a cached single candidate is reused only for a unique dependency",
     "C06.11 is_flat / is_object_root / is_shared_root / id definitions; read-only bridged/cloned views; fresh per-node edge containers",
 ]
 NOT_DECIDED = ["acyclicity", "reachability of every node", "exactly one producer per required state", "uniqueness of identities for all inputs"]
@@ -41,6 +42,8 @@ def run(ctx):
     ctx.call(N.run_decision_table, "6r")
     ctx.call(N.clean_decision_table, "6c")
     ctx.call(GR.dependency_lookup, "7")
+    ctx.call(GR.dependency_provenance, "7p")
+    ctx.call(GR.dependency_table, "7t")
     ctx.call(GR.identity_forms, "8")
     ctx.call(GR.node_objects, "9")
     ctx.call(GR.cloning, "10")
